@@ -75,6 +75,10 @@ func newScope(rootProvider *provider, parent *scope, ctx context.Context, cancel
 	// These need to be called when the scope is created
 	for _, descriptor := range rootProvider.voidReturnScopedDescriptors {
 		if _, err := s.createInstance(descriptor); err != nil {
+			// Dispose what earlier initializers created and release the
+			// derived context; the scope is never handed out.
+			_ = s.Close()
+
 			return nil, &ResolutionError{
 				ServiceType: descriptor.Type,
 				ServiceKey:  descriptor.Key,
